@@ -189,7 +189,7 @@ pub fn run_recipe(ctx: &mut Ctx, v: &J, scratch: &str) {
         ctx.evaluations += 1;
         ctx.judged += 1;
         if small {
-            let o = decode_and_follow(ty, "", "slice", &bytes);
+            let o = guarded_decode_and_follow(ty, "", "slice", &bytes);
             if o.accepted {
                 ctx.accepted += 1;
             } else {
@@ -227,7 +227,7 @@ pub fn run_recipe(ctx: &mut Ctx, v: &J, scratch: &str) {
 pub fn fuzz_one(ctx: &mut Ctx, bytes: &[u8], origin: &str) {
     for (ty, reg, api) in entry_points() {
         ctx.evaluations += 1;
-        let o = decode_and_follow(ty, reg, api, bytes);
+        let o = guarded_decode_and_follow(ty, reg, api, bytes);
         if o.accepted {
             ctx.accepted += 1;
             let h = hash_pub(&json!([ty, reg, api, hex(bytes)]));
